@@ -334,6 +334,9 @@ func genC12(tier string) []Scenario {
 		ws = []int{1, 2, 3, 0, -1}
 	}
 	var ps []poolScn
+	// long runs of tasks through few workers (66 and 130 tasks: beyond any per-worker task count a
+	// pool might keep), in one round and in two rounds on the same pool
+	ps = append(ps, poolScn{w: 1, progs: []string{strings.Repeat("i", 66)}}, poolScn{w: 1, progs: []string{strings.Repeat("i", 40)}, round2: strings.Repeat("i", 26)})
 	for _, w := range ws {
 		eff := w
 		if eff <= 0 {
@@ -425,6 +428,9 @@ func genC12(tier string) []Scenario {
 			}
 			if !thorough && total >= 5 {
 				b = 1 // long programs: one preemption (plus every free switch) in the quick tier
+			}
+			if total >= 30 {
+				b = 0 // very long programs: every free switch, no preemption
 			}
 			sc := p.scenario(b)
 			sc.Name += boundName(b)
